@@ -33,6 +33,9 @@ ASSUMPTIONS = [
     'unspecified: RESTORE to a missing line: Undefined line number (GW-BASIC) or "first DATA at or after n" '
     '(literal statement) both accepted',
     'numeric items are decimal literals exactly convertible to single precision or short decimals',
+    'a READ whose assignment fails (Overflow into an integer variable, Subscript out of range) has not consumed the item: it was '
+    'not delivered to any variable and is still the next item (leg failed-assign); the earlier targets of the same READ keep '
+    'the items they received',
 ]
 
 # contents of one DATA statement; {d} is the ordinal of the statement (keeps items distinct)
@@ -417,7 +420,104 @@ def work_dependent(shard):
     return part
 
 
+# ---------------------------------------------------------------------------
+# READ whose assignment fails (overflow, bad subscript): the item has not been delivered, so it is still the next item
+
+FA_TARGETS = ['A', 'K%', 'Q(11)', 'B$', 'L%']
+FA_DATA = ['1', '40000', '3', '-50000', '5']
+
+
+def failed_assign_cases(maxstmts):
+    import itertools
+    lists = [l for n in (1, 2, 3) for l in itertools.product(range(len(FA_TARGETS)), repeat=n)]
+    out = []
+    for k in range(1, maxstmts + 1):
+        for stmts in itertools.product(lists, repeat=k):
+            if sum(len(l) for l in stmts) <= (3 if maxstmts == 1 else 4):
+                out.append(stmts)
+    return out
+
+
+def _fa_reference(stmts):
+    """-> expected printed text: per READ statement the error code or 0, then the values, then the remaining items."""
+    items = list(FA_DATA)
+    vals = {'A': '0', 'K%': '0', 'L%': '0', 'B$': ''}
+    out = []
+    for lst in stmts:
+        err = 0
+        for t in lst:
+            name = FA_TARGETS[t]
+            if not items:
+                err = 4
+                break
+            v = items[0]
+            if name == 'Q(11)':
+                err = 9
+                break
+            if name.endswith('%') and not -32768 <= int(v) <= 32767:
+                err = 6
+                break
+            items.pop(0)
+            vals[name] = v
+        out.append('E%d' % err)
+    out.append('V %s %s %s %s' % (vals['A'], vals['K%'], vals['L%'], vals['B$']))
+    out.append('R ' + ' '.join(items))
+    return ';'.join(out)
+
+
+def work_failed_assign(shard):
+    from mc import harness as H
+    part = Partial()
+    s = H.new_session()
+    for stmts in shard:
+        lines = ['10 ON ERROR GOTO 900', '20 DATA ' + ','.join(FA_DATA)]
+        n = 30
+        for lst in stmts:
+            lines.append('%d E=0:READ %s' % (n, ','.join(FA_TARGETS[t] for t in lst)))
+            lines.append('%d PRINT "E";E;";";' % (n + 5))
+            n += 10
+        lines.append('200 PRINT "V";A;K%;L%;" ";B$;";R";')
+        lines.append('210 ON ERROR GOTO 950')
+        lines.append('220 READ D#:PRINT D#;:GOTO 220')
+        lines.append('900 E=ERR:RESUME NEXT')
+        lines.append('950 END')
+        case = {'leg': 'failed-assign', 'reads': [list(l) for l in stmts], 'program': lines}
+        H.run(s, b'ON ERROR GOTO 0:NEW')
+        for l in lines:
+            r = H.run(s, l.encode('ascii'))
+            if r.exc is not None or r.out.strip():
+                raise CheckError('line not accepted: %r -> %r' % (l, r))
+        r = H.run(s, b'RUN')
+        part.n += 1
+        part.traces += 1
+        if r.exc is not None:
+            part.violation('failed-assign/host-exception/%s' % H.exc_key(r.exc), '%r raised %r' % (lines, r.exc), case)
+            s = H.new_session()
+            continue
+        import re as _re
+        got = r.out.decode('latin-1')
+        want = _fa_reference(stmts)
+        norm = lambda t: _re.findall(r'[A-Za-z$]+|-?[0-9]+|;', t)
+        if norm(got) != norm(want):
+            part.violation('failed-assign/%s' % ('item-skipped-or-repeated' if norm(got.split('R')[-1]) != norm(want.split('R')[-1]) else 'wrong-values'),
+                           'READ statements %r on DATA %s printed %r, expected %r' % (
+                               [','.join(FA_TARGETS[t] for t in l) for l in stmts], ','.join(FA_DATA), got, want), case)
+        part.classes.add('failed-assign/%s' % '+'.join(sorted(set(x for x in _fa_reference(stmts).split(';') if x.startswith('E')))))
+    s.close()
+    part.sample({'leg': 'failed-assign', 'reads': [list(l) for l in shard[0]]})
+    return part
+
+
 def legs(ctx):
+    fa = failed_assign_cases(1 if ctx.quick else 2)
+    return _legs_dep(ctx) + [
+        Leg('failed-assign', list(chunked(fa, 40)), work_failed_assign, exhaustive=True,
+            bound='%d programs: all sequences of <= %d READ statements of 1..3 targets over %s (overflowing integers, an out-of-range '
+                  'subscript) under ON ERROR ... RESUME NEXT on DATA %s: an item whose assignment failed is still the next item; the '
+                  'rest is read to exhaustion' % (len(fa), 1 if ctx.quick else 2, FA_TARGETS, ','.join(FA_DATA)))]
+
+
+def _legs_dep(ctx):
     dep = dependent_cases(3 if ctx.quick else 4)
     return _legs_model(ctx) + [
         Leg('dependent', list(chunked(dep, 60)), work_dependent, exhaustive=True,
@@ -455,6 +555,8 @@ def _legs_model(ctx):
 def replay(ctx, leg, case):
     part = Partial()
     runner = Runner()
+    if case['leg'] == 'failed-assign':
+        return work_failed_assign([tuple(tuple(l) for l in case['reads'])])
     if case['leg'] == 'dependent':
         return work_dependent([tuple(case['targets'])])
     if case['leg'] == 'trapped':
